@@ -97,7 +97,7 @@ def setup(ctx):
     return {'ffis': [ffi1, ffi2], 'so': so}
 
 
-OPS = ['open'] * 4 + ['read'] * 6 + ['write'] * 5 + ['fetch'] * 6 + ['call'] * 4 + ['close'] * 3 + ['dir'] * 1
+OPS = ['open'] * 4 + ['read'] * 6 + ['write'] * 5 + ['fetch'] * 6 + ['call'] * 4 + ['close'] * 3 + ['dir'] * 1 + ['addressof'] * 3
 
 
 def strategy(ctx):
@@ -295,6 +295,36 @@ class History(object):
                 self.mem = None
                 self.flags.add('library-really-unmapped')
         return lab
+
+    def op_addressof(self, a, g, _):
+        """ffi.addressof(lib, 'global'): a pointer to the variable while the lib is open (the in-line FFI
+        caches it per lib object -- a cache that must not turn into a way around the closed check)"""
+        l = self.lib_for(a)
+        name = GLOBALS[g % 4]
+        ffi = self.ffis[l.mode]
+        if l.open:
+            p = ffi.addressof(l.lib, name)
+            l.before += 1
+            v = p[0]
+            if v != self.mem[name]:
+                self.ctx.fail('*addressof(lib, %r) through an open lib object is %r, memory model says %r'
+                              % (name, v, self.mem[name]), step=self.step)
+            del p           # the pointer itself is never used after a close: that would be the caller's bug
+            l.fetched.add('&' + name)
+            return 'addressof-open'
+        if '&' + name in l.fetched:
+            # address taken before the close: like a function fetched before, what a repeated addressof()
+            # does after the close is not specified (the in-line FFI returns its cached pointer)
+            try:
+                ffi.addressof(l.lib, name)
+            except (MemoryError, SystemError):
+                raise
+            except Exception:
+                pass
+            return 'addressof-closed-taken-before'
+        self.must_raise(l, 'addressof(lib, %r)' % name, lambda: ffi.addressof(l.lib, name))
+        l.after += 1
+        return 'addressof-closed'
 
     def op_dir(self, a, _, __):
         l = self.lib_for(a)
